@@ -360,6 +360,9 @@ func walkOut[Q any](q0 Q, list func(Q) (*sharedapi.Cursor[pagItem], error), maxP
 			continue
 		}
 		e["page"] = pageJ(pc)
+		// a client that is ON the page reached through `previous` and follows `next` until hasMore is false (the real Iterate,
+		// started from the query the `previous` token stands for): it must be shown the rest of the list from that page on
+		e["resume"] = resumeOut(pq, list, maxPages)
 		if pc.Next != "" {
 			var nq Q
 			if err := bunpaginate.UnmarshalCursor(pc.Next, &nq); err != nil {
@@ -376,7 +379,7 @@ func walkOut[Q any](q0 Q, list func(Q) (*sharedapi.Cursor[pagItem], error), maxP
 	}
 	out["prevs"] = prevs
 	// all the way back from the last page
-	back := []any{}
+	back, backFlags := []any{}, []any{}
 	if n := len(cursors); n > 0 && err == nil {
 		tok := cursors[n-1].Previous
 		for steps := 0; tok != "" && steps <= maxPages; steps++ {
@@ -391,10 +394,32 @@ func walkOut[Q any](q0 Q, list func(Q) (*sharedapi.Cursor[pagItem], error), maxP
 				break
 			}
 			back = append(back, itemIDs(pc.Data))
+			backFlags = append(backFlags, J{"hasMore": pc.HasMore, "hasNext": pc.Next != ""})
 			tok = pc.Previous
 		}
 	}
 	out["backwalk"] = back
+	out["backflags"] = backFlags
+	return out
+}
+
+// resumeOut: the pages the real Iterate delivers when started from query q (first page included), reduced to what the walk
+// oracle needs: the ids, hasMore, and whether a `next` token came with the page.
+func resumeOut[Q any](q Q, list func(Q) (*sharedapi.Cursor[pagItem], error), maxPages int) J {
+	pages := []any{}
+	err := bunpaginate.Iterate(context.Background(), q,
+		func(ctx context.Context, q Q) (*sharedapi.Cursor[pagItem], error) { return list(q) },
+		func(c *sharedapi.Cursor[pagItem]) error {
+			pages = append(pages, J{"data": itemIDs(c.Data), "hasMore": c.HasMore, "hasNext": c.Next != ""})
+			if len(pages) > maxPages {
+				return fmt.Errorf("stop: more than %d pages", maxPages)
+			}
+			return nil
+		})
+	out := J{"pages": pages, "error": nil}
+	if err != nil {
+		out["error"] = errClass(err)
+	}
 	return out
 }
 
@@ -813,6 +838,21 @@ func execHTTP(in J) J {
 		}
 		if pc != nil {
 			e["data"] = httpPageIDs(ep, pc.Data)
+			e["hasMore"], e["hasNext"] = pc.HasMore, pc.Next != ""
+			// the client is on this page now and follows `next` until hasMore is false (api.FetchAllPaginated's rule)
+			resume := []any{}
+			for c, n := pc, 0; c.HasMore && n <= maxPages; n++ {
+				code, nc := get(url.Values{"cursor": []string{c.Next}}.Encode(), "")
+				st := J{"status": code}
+				if nc == nil {
+					resume = append(resume, st)
+					break
+				}
+				st["data"], st["hasMore"], st["hasNext"] = httpPageIDs(ep, nc.Data), nc.HasMore, nc.Next != ""
+				resume = append(resume, st)
+				c = nc
+			}
+			e["resume"] = resume
 		}
 		prevs = append(prevs, e)
 	}
